@@ -42,14 +42,19 @@ def _alarm(signum, frame):
 
 
 def call_with_timeout(seconds, fn, *args, **kw):
-    """Run fn under a SIGALRM watchdog (main thread of a worker only)."""
-    old = signal.signal(signal.SIGALRM, _alarm)
-    signal.setitimer(signal.ITIMER_REAL, seconds)
+    """
+    Run fn under a watchdog measured in CPU time of this process
+    (ITIMER_VIRTUAL), so that an overloaded machine can never turn a slow
+    schedule into a "does not terminate" verdict; a genuine loop burns CPU
+    and is caught.  Main thread of a worker only.
+    """
+    old = signal.signal(signal.SIGVTALRM, _alarm)
+    signal.setitimer(signal.ITIMER_VIRTUAL, seconds)
     try:
         return fn(*args, **kw)
     finally:
-        signal.setitimer(signal.ITIMER_REAL, 0)
-        signal.signal(signal.SIGALRM, old)
+        signal.setitimer(signal.ITIMER_VIRTUAL, 0)
+        signal.signal(signal.SIGVTALRM, old)
 
 
 def pmap(fn, items, nworkers=None, min_per_worker=1):
